@@ -16,7 +16,7 @@ LEVEL_TEXT = {
     "C05": "Theorems: concrete deps yield the leaf-trait shape (impl for C calling the fn; nested entrait invocation on the trait) and the composed (nested) expansion forwards Impl<T> to T (by value through into_inner for by-value receivers). Tie: nested record linked to the outer one; run-time differential clients (incl. a dependency type that arrives as a macro_rules `ty` fragment) and availability probes (Impl<C>, hand-written Other, Impl<Nope> rejected).",
     "C06": "Theorems: Impl<T> forwards every method once to the provider selected by delegate_by with the method's own parameters in order (mini-semantics of the forwarding body, Sem2), bound on T as selected. Tie: impl projection; run-time differential clients; accept/reject availability probes (provider / none / wrong way / not Sync / typed receiver).",
     "C07": "Theorems: delegation-target / selector trait shapes and the static/dynamic call shapes; impl blocks call `Self::m(__impl, ..)`. Tie: projection on both sides.",
-    "C08": "Theorems over every body token list: the trait's methods are exactly the splitter's visible fns with body, in order, and for bodies that are sequences of well-delimited items the chunks are those items; the trait is re-exported beside the module with the requested visibility and denotes the scope it would have if declared there (Vis.v). Tie: method list vs syn's item parser and the generator's ground truth; visibility projection.",
+    "C08": "Theorems over every body token list: the trait's methods are exactly the splitter's visible fns with body, in order, and for bodies that are sequences of well-delimited items the chunks are those items; the trait is re-exported beside the module with the requested visibility and denotes the scope it would have if declared there (Vis.v). Tie: method list vs syn's item parser and the generator's ground truth; visibility projection. A macro_rules-written module / impl block whose function bodies are `block` fragments (None-delimited groups, which the recorder cannot carry) is compiled and run by the run probe (F30, repaired).",
     "C09": "Theorem outside the known class (unsafe/auto/associated types/default bodies): the emitted trait is the input trait modulo the async rewrite and added mock attributes; refutation witnesses for the class. Tie: structural diff.",
     "C10": "Theorems for every item and the full option lattice: mock attributes present iff enabled, gated iff not exporting, explicit false wins in every variant; read in a build (Cfg.v): a derivation is in effect iff enabled and (exporting or cfg(test)). Tie: attribute projection; test / non-test builds probed (mock item exists exactly where the property says).",
     "C11": "Theorems: unimock attribute arguments (prefix, api shape, one unmock entry per method by dependency kind, in method order). unimock's own behaviour is assumed (U1) and exercised at run time by the probe (mocked by name, argument order, partial mocks reach the real function, concrete deps / traits not un-mockable). Tie: attribute projection.",
